@@ -159,6 +159,28 @@ func registerStd(e *Engine) {
 		}
 		return IfaceV{}, true
 	})
+	// context.WithTimeout / WithCancel: an opaque context whose Done() channel is a timer that fires only when
+	// nothing else in a select is ready (sequential model of "wait up to the timeout")
+	ctxMk := func(e *Engine, st *State, cc *CallCtx) (Value, bool) {
+		ctx := IfaceV{T: types.Typ[types.UnsafePointer], V: NativeV{Tag: "ctx-timeout"}}
+		return TupleV{ctx, FuncV{Native: "blackhole:cancel"}}, true
+	}
+	e.reg("context.WithTimeout", ctxMk)
+	e.reg("context.WithCancel", ctxMk)
+	e.reg("context.WithDeadline", ctxMk)
+	e.reg("native:ctx-timeout.Done", func(e *Engine, st *State, cc *CallCtx) (Value, bool) {
+		id := e.newObj()
+		st.dirty = true
+		st.heap[id] = NativeV{Tag: "chan-timer"}
+		return ChanRef{Obj: id}, true
+	})
+	e.reg("native:ctx-timeout.Err", func(e *Engine, st *State, cc *CallCtx) (Value, bool) { return IfaceV{}, true })
+	e.reg("time.After", func(e *Engine, st *State, cc *CallCtx) (Value, bool) {
+		id := e.newObj()
+		st.dirty = true
+		st.heap[id] = NativeV{Tag: "chan-timer"}
+		return ChanRef{Obj: id}, true
+	})
 	// regexp: opaque native regexps, usable on concrete strings only
 	reCompile := func(must bool) NativeFn {
 		return func(e *Engine, st *State, cc *CallCtx) (Value, bool) {
